@@ -88,7 +88,9 @@ def set_bad_file_permissions(context):
                     sev_level = bandit.MEDIUM
 
                 filename = context.get_call_arg_at_position(0)
-                if filename is None:
+                if filename is None or isinstance(filename, (set, dict)):
+                    # a set or dict display has no stable text (hash order,
+                    # node addresses): do not quote it
                     filename = "NOT PARSED"
                 return bandit.Issue(
                     severity=sev_level,
